@@ -769,8 +769,8 @@ def run(tier: str) -> int:
 
     replay_corpus(ck, ftrun)
     r = rng("c19")
-    n_unit = 20000 if tier == "quick" else 400000
-    n_e2e = 300 if tier == "quick" else 8000
+    n_unit = 20000 if tier == "quick" else 300000
+    n_e2e = 300 if tier == "quick" else 6000
     run_unit(ck, drv, ftrun, r, n_unit)
     run_unit_verdicts(ck, drv, ftrun, rng("c19-verdicts"), n_unit // 4)
     run_e2e(ck, drv, rng("c19-e2e"), n_e2e)
